@@ -314,6 +314,12 @@ def o_c05(scn, obs, runner):
         if pubs:
             if len(pubs) > 1 or len(sigs) != len(keys) or not keys or pubs[0][3] != b"PUB" + bytes([keys[0]]) + b"\0":
                 fails.append(dict(op=i, why="public key offer %r after %d/%d signatures" % (pubs, len(sigs), len(keys))))
+        # the wait after the public key lasts up to the AUTH timeout: a silent device is given up on no earlier than that
+        if pubs and o["res"] == "err TransportTimeout" and dev and dev[-1][0] == b"AUTH":
+            at = op.get("at", 10240)
+            prev_now = obs[i - 1]["now"] if i > 0 else scn.get("now", 1 << 40)
+            if at is not None and at > 0 and o["now"] - prev_now < at:
+                fails.append(dict(op=i, why="after offering the public key connect() gave up after %d ticks; the auth timeout is %d" % (o["now"] - prev_now, at)))
         ncb = o["ev"].count("cbauth")
         want_cb = 1 if (pubs and op.get("cb")) else 0
         if ncb != want_cb:
